@@ -172,6 +172,55 @@ func r062(c *Ctx) {
 		}
 	}
 	c.ob(rule, "NewTargetList/invalid-target-aborts", ntl.Pos(), okTL, true, "a malformed target must abort the list with its error")
+	// every entry of the list is a Target of its own (one probe loop, one in-flight table, one Dispose each): an object
+	// shared between entries is started twice and stopped once
+	okFresh, nApp := true, 0
+	for _, b := range ntl.Blocks {
+		for _, in := range b.Instrs {
+			call, ok := in.(*ssa.Call)
+			if !ok {
+				continue
+			}
+			if bi, isB := call.Call.Value.(*ssa.Builtin); !isB || bi.Name() != "append" {
+				continue
+			}
+			for _, e := range appendedElems(call) {
+				nApp++
+				for _, src := range phiSources(e) {
+					ex, isE := src.(*ssa.Extract)
+					if !isE || ex.Index != 0 {
+						okFresh = false
+						continue
+					}
+					if mk, isC := ex.Tuple.(*ssa.Call); !isC || !isCallTo(mk.Common(), nt) || !(mk.Block() == call.Block() || mk.Block().Dominates(call.Block())) || !inLoop(mk.Block()) {
+						okFresh = false
+					}
+				}
+			}
+		}
+	}
+	for _, b := range ntl.Blocks {
+		for _, in := range b.Instrs {
+			if st, ok := in.(*ssa.Store); ok {
+				if _, isIA := st.Addr.(*ssa.IndexAddr); isIA && strings.HasSuffix(typeString(st.Val.Type()), ".Target") {
+					nApp++
+					for _, src := range phiSources(st.Val) {
+						ex, isE := src.(*ssa.Extract)
+						if mk, isC := func() (*ssa.Call, bool) {
+							if !isE || ex.Index != 0 {
+								return nil, false
+							}
+							m, ok := ex.Tuple.(*ssa.Call)
+							return m, ok
+						}(); !isC || !isCallTo(mk.Common(), nt) {
+							okFresh = false
+						}
+					}
+				}
+			}
+		}
+	}
+	c.ob(rule, "NewTargetList/one-fresh-Target-per-entry", ntl.Pos(), okFresh && nApp >= 1, true, "each element of the list must be the Target made by NewTarget for that entry")
 	// NewTarget validates before allocating anything long-lived (no goroutine, no probe)
 	ptu := c.fn("parseTargetURL")
 	okNT := false
